@@ -95,7 +95,7 @@ fn main() {
                 }
                 beat.store(run + 1, std::sync::atomic::Ordering::SeqCst);
                 let seed = tape::run_seed(top, &label, run);
-                let sc = engine.generate(property, seed, tier);
+                let sc = engines::generate(&*engine, property, seed, tier);
                 {
                     use std::io::Write;
                     let mut f = std::fs::OpenOptions::new().create(true).append(true).open(out).unwrap();
@@ -176,7 +176,7 @@ fn main() {
             let start = std::time::Instant::now();
             for run in first..first + runs {
                 let seed = tape::run_seed(top_seed(), &label, run);
-                let sc = engine.generate(property, seed, "quick");
+                let sc = engines::generate(&*engine, property, seed, "quick");
                 let sink = FatalSink {
                     scenario: sc.clone(),
                     out_path: None,
@@ -228,7 +228,7 @@ fn main() {
             for run in first..first + count {
                 _beat.store(run + 1, std::sync::atomic::Ordering::SeqCst);
                 let seed = tape::run_seed(top_seed(), &label, run);
-                let sc = engine.generate(property, seed, "quick");
+                let sc = engines::generate(&*engine, property, seed, "quick");
                 let sink = FatalSink {
                     scenario: sc.clone(),
                     out_path: None,
